@@ -61,7 +61,7 @@ def mutate(text: str, other: str, op: str, size: Any, pos: int) -> str:
     n = len(sec)
     if n == 0:
         return text
-    rng = kit.rng_for("C20-mut", kit.digest([text[:200], op, size, pos]))
+    rng = kit.family_rng("C20-mut", kit.digest([text[:200], op, size, pos]))
     i = rng.randrange(n)
     if op == "torn":
         return "".join(sec[:i]) + (sec[i][: rng.randrange(len(sec[i]) + 1)] if rng.random() < 0.5 else "")
@@ -95,7 +95,7 @@ def item_for(index: int) -> dict[str, Any]:
     si, pos = divmod(rest, NPOS)
     c = cs[ci]
     targets = sorted(p for p in c["steps"][0] if p.endswith((".py", ".pyi")) and p not in FIXTURE_FILES)
-    rng = kit.rng_for("C20-target", index)
+    rng = kit.family_rng("C20-target", index)
     target = rng.choice(targets)
     other_case = cs[(ci + 1) % len(cs)]
     other = other_case["steps"][0].get("main.py", "")
